@@ -252,3 +252,37 @@ def count_lines(path):
         for _ in f:
             n += 1
     return n
+
+
+# ------------------------------------------------------------------ replay of a recorded disagreement
+ROW_VALIDATORS = {"C01": "Rows_JtArray", "C04": "Rows_JtFault", "C08": "Rows_JtPyTree", "C09": "Rows_JtPyTree",
+                  "C16": "Rows_JtPyTree", "C02": "Rows_JtCall", "C13": "Rows_JtCall", "C17": "Rows_JtCall",
+                  "C14": "Rows_JtDims", "C07": "Rows_JtCallShape", "C19": "Rows_JtCallShape", "C10": "Rows_JtHookAst"}
+
+
+def replay(pid, path):
+    """./check <ID> --replay <file>: shows the recorded disagreement and lets TLC re-decide the recorded row
+    (exit 1 if the specification still rejects it, 0 if it accepts it now, 2 if the file holds no row)."""
+    d = json.load(open(path))
+    print(json.dumps({"property": d.get("property"), "key": d.get("key")}, indent=1))
+    row = (d.get("detail") or {}).get("row")
+    mod = ROW_VALIDATORS.get(pid)
+    if not row or not mod or "id" not in row:
+        print(json.dumps(d.get("detail"), indent=1, default=str)[:4000])
+        print("(this replay holds a behaviour / history rather than a single row: re-run the check to re-execute it)")
+        return 2
+    chk = Check(pid, "quick")
+    try:
+        p = os.path.join(chk.workdir, "replay.ndjson")
+        open(p, "w").write(json.dumps(row) + "\n")
+        spec = "RSpec" if mod == "Rows_JtDims" else "Spec"
+        mism, _ = validate_rows(chk, mod, [p], name="replay", canary_field="none", spec=spec)
+    finally:
+        shutil.rmtree(chk.workdir, ignore_errors=True)
+    if mism:
+        print("the specification REJECTS the recorded observation; it expects:")
+        print(json.dumps(mism[0][1], indent=1)[:3000])
+        print(f"VIOLATION property={pid} replay={path}")
+        return 1
+    print("the specification accepts the recorded observation")
+    return 0
